@@ -5,13 +5,14 @@
   Operations live in ForsysModel/Driver/*.lean; each module exports `ops : List Op`.
 -/
 import ForsysModel.Driver.Core
+import ForsysModel.Driver.Time
 import ForsysModel.Driver.C14
 import ForsysModel.Driver.C19
 import ForsysModel.Driver.C17
 import ForsysModel.Driver.C18
 open Lean Forsys Forsys.Driver
 
-def allOps : List Op := Forsys.Driver.Core.ops ++ Forsys.Driver.C19.ops ++ Forsys.Driver.C17.ops ++ Forsys.Driver.C18.ops ++ Forsys.Driver.C14.ops
+def allOps : List Op := Forsys.Driver.Core.ops ++ Forsys.Driver.Time.ops ++ Forsys.Driver.C19.ops ++ Forsys.Driver.C17.ops ++ Forsys.Driver.C18.ops ++ Forsys.Driver.C14.ops
 
 def dispatch (j : Json) : E Json := do
   let op ← (← field j "op").getStr?
